@@ -96,6 +96,13 @@ impl std::io::Write for Trickle {
                 }
                 2
             }
+            4 => {
+                if self.calls == 1 {
+                    3
+                } else {
+                    buf.len().saturating_sub(1).max(1)
+                }
+            }
             _ => buf.len(),
         }
         .min(buf.len());
@@ -103,6 +110,19 @@ impl std::io::Write for Trickle {
         Ok(n)
     }
     fn write_vectored(&mut self, bufs: &[std::io::IoSlice<'_>]) -> std::io::Result<usize> {
+        if self.kind == 4 {
+            // gathers, but the first call stops inside the first piece; later calls take one byte less than offered
+            self.calls += 1;
+            let total: usize = bufs.iter().map(|b| b.len()).sum();
+            let mut left = if self.calls == 1 { total.min(3) } else { total.saturating_sub(1).max(total.min(1)) };
+            let taken = left;
+            for b in bufs {
+                let k = left.min(b.len());
+                self.got.extend_from_slice(&b[..k]);
+                left -= k;
+            }
+            return Ok(taken);
+        }
         if self.kind != 3 {
             let first = bufs.iter().find(|b| !b.is_empty()).map(|b| &**b).unwrap_or(&[]);
             return self.write(first);
@@ -150,7 +170,7 @@ pub fn check_style(st: SgrState, with_grid: bool) -> Result<(), (String, String)
     }
     // the io::Write path into writers that take one or three bytes per call, fail with Interrupted every other call, or
     // implement a gathering write_vectored: same bytes
-    for kind in 0..4u8 {
+    for kind in 0..5u8 {
         let mut t = Trickle { kind, calls: 0, got: vec![] };
         style.write_to(&mut t).map_err(|e| ("c05:style:write_to-error".to_string(), format!("writer kind {kind}: {e}")))?;
         if t.got != disp.as_bytes() {
@@ -170,7 +190,7 @@ pub fn check_style(st: SgrState, with_grid: bool) -> Result<(), (String, String)
     if reset != reset2 || w != reset.as_bytes() {
         return Err(("c05:reset:paths-differ".into(), format!("{{:#}} {:?}, render_reset {:?}, write_reset_to {:?}", show(reset.as_bytes()), show(reset2.as_bytes()), show(&w))));
     }
-    for kind in 0..4u8 {
+    for kind in 0..5u8 {
         let mut t = Trickle { kind, calls: 0, got: vec![] };
         style.write_reset_to(&mut t).map_err(|e| ("c05:reset:write_reset_to-error".to_string(), format!("writer kind {kind}: {e}")))?;
         if t.got != reset.as_bytes() {
